@@ -270,7 +270,12 @@ def real_cases(ctx, rng, nmul):
         for name, raw in (("nonres-02", b"\x02" + x.to_bytes(32, "big")), ("nonres-xonly", x.to_bytes(32, "big")),
                           ("x>=p", b"\x03" + (P256 + j).to_bytes(32, "big")), ("xonly>=p", (P256 + 1 + j).to_bytes(32, "big")),
                           ("bad-prefix", b"\x05" + Pt.x.num.to_bytes(32, "big")), ("offcurve-04", b"\x04" + Pt.x.num.to_bytes(32, "big") + ((Pt.y.num + 1) % P256).to_bytes(32, "big")),
-                          ("short", b"\x02" + Pt.x.num.to_bytes(32, "big")[:-2]), ("long", Pt.sec() + b"\x00")):
+                          ("short", b"\x02" + Pt.x.num.to_bytes(32, "big")[:-2]), ("long", Pt.sec() + b"\x00"),
+                          # a prefix with the length of the other form: 02/03 followed by 64 bytes (right and wrong parity), 04 followed by 32
+                          ("compressed-prefix-65-bytes", bytes([2 + (Pt.y.num & 1)]) + Pt.x.num.to_bytes(32, "big") + Pt.y.num.to_bytes(32, "big")),
+                          ("compressed-prefix-65-bytes-other-parity", bytes([3 - (Pt.y.num & 1)]) + Pt.x.num.to_bytes(32, "big") + Pt.y.num.to_bytes(32, "big")),
+                          ("uncompressed-prefix-33-bytes", b"\x04" + Pt.x.num.to_bytes(32, "big")),
+                          ("uncompressed-prefix-66-bytes", b"\x04" + Pt.x.num.to_bytes(32, "big") + Pt.y.num.to_bytes(32, "big") + b"\x00")):
             got = outcome(pecc.S256Point.parse, raw)
             cases.append({"id": "r%d.%s" % (j, name), "kind": "reject", "why": name, "raw": B(raw), "accepted": got[0] == "ok" and got[1].x is not None,
                           "x": le(x), "w": le(w), "cert": cong(w * w + v, 0, P256) if name.startswith("nonres") else {"k": [], "neg": False, "exact": True},
